@@ -256,8 +256,12 @@ def repGreedyGen (ctx : Ctx) (id : Nat) (child : Gen) (min max : Nat) : Gen := f
         (fun n st2 => greedyNode child min bound fuel 1 (some (bound - 1)) n st2)
         (fun n st2 => greedyNode child min bound fuel 1 none n st2)).force 0 none
     else
+      -- the zero-iteration entry `once(position)` sits on the stack *unadvanced* while the stack is primed
+      -- (its position counts as yielded); when everything above it is exhausted it is advanced for real,
+      -- yields `position` a second time and is re-extended under the `len < bound` limit
       let st1 := { st with hist := (id, position) :: st.hist }
-      (greedyNode child min bound fuel 1 (some bound) position st1).force 0 none
+      ((greedyNode child min bound fuel 1 (some bound) position st1).append
+        (fun st2 => greedyNode child min bound fuel 1 none position st2)).force 0 none
   else
     if bound == 0 then .nil st else
     ((child position st).bindFR
